@@ -390,16 +390,19 @@ Dom_arith(fs, a) ==
 ArithVar(f, g, a, v) ==
   IF IsCoord(f, v.name) \/ ~HasVar(g, v.name) THEN v
   ELSE LET w == VarRec(g, v.name)
+           dt == IF w.dt \in IntTypes THEN v.dt ELSE w.dt
+           \* integer x // 0 and x % 0: numpy's masked-array arithmetic masks the
+           \* cell (domain mask) as soon as one operand is a masked array, even one
+           \* without masked cells; two plain integer arrays give 0
+           intdivzero == [k \in 1..Len(v.vals) |-> /\ dt \in IntTypes /\ a.op \in {"//", "%"}
+                                                   /\ ~(v.mask[k] \/ w.mask[k]) /\ w.vals[k].n = 0]
            c == [k \in 1..Len(v.vals) |->
                    IF v.mask[k] \/ w.mask[k] THEN [ok |-> FALSE, v |-> RInt(0)]
-                   ELSE ArithCellT(a.op, v.vals[k], w.vals[k], IF w.dt \in IntTypes THEN v.dt ELSE w.dt)]
-           \* integer x // 0 and x % 0: plain integer arrays give 0, masked-array
-           \* arithmetic masks the cell; both follow "masked-array semantics"
-           dt == IF w.dt \in IntTypes THEN v.dt ELSE w.dt
-           fr == [k \in 1..Len(v.vals) |-> /\ dt \in IntTypes /\ a.op \in {"//", "%"}
-                                           /\ ~(v.mask[k] \/ w.mask[k]) /\ w.vals[k].n = 0]
+                   ELSE IF intdivzero[k] THEN (IF v.masked \/ w.masked THEN [ok |-> FALSE, v |-> RInt(0)]
+                                               ELSE [ok |-> TRUE, v |-> RInt(0)])
+                   ELSE ArithCellT(a.op, v.vals[k], w.vals[k], dt)]
        IN [v EXCEPT !.vals = [k \in 1..Len(c) |-> c[k].v],
-                    !.mask = [k \in 1..Len(c) |-> ~c[k].ok]] @@ [freecells |-> fr]
+                    !.mask = [k \in 1..Len(c) |-> ~c[k].ok]]
 Exp_arith(fs, a) ==
   [fs[1] EXCEPT !.vars = [i \in 1..Len(fs[1].vars) |-> ArithVar(fs[1], fs[2], a, fs[1].vars[i])]]
 
